@@ -207,12 +207,14 @@ class Path(pathlib.Path):
 
         """
 
-        if self.is_dir():
-            scandotdir = flags & SCANDOTDIR
-            flags = self._translate_flags(  # type: ignore[attr-defined]
-                flags | _NOABSOLUTE
-            ) | ((_PATHLIB | SCANDOTDIR) if scandotdir else _PATHLIB)
-            for filename in glob.iglob(patterns, flags=flags, root_dir=str(self), limit=limit, exclude=exclude):
+        scandotdir = flags & SCANDOTDIR
+        flags = self._translate_flags(  # type: ignore[attr-defined]
+            flags | _NOABSOLUTE
+        ) | ((_PATHLIB | SCANDOTDIR) if scandotdir else _PATHLIB)
+        # The patterns are parsed (and rejected) the same way whether or not there is a directory to search
+        is_dir = self.is_dir()
+        for filename in glob.iglob(patterns, flags=flags, root_dir=str(self), limit=limit, exclude=exclude):
+            if is_dir:
                 yield self.joinpath(filename)
 
     def rglob(  # type: ignore[override]
